@@ -86,3 +86,10 @@ impl<'a> DocBuilder<'a, Arena<'a>> {
     #[verifier::external_body]
     pub fn vp_add_assign_str(&mut self, s: &str) ensures final(self)@ == cat(old(self)@, DocV::Text(s@)) { unimplemented!() }
 }
+
+/// crate::pretty::doc_ext::DocExt (generic over the allocator in the real code; its loop is `nil` + n x `append(clone)`): ASSUMED
+pub trait DocExt: Sized { fn repeat_n(self, n: usize) -> Self; }
+impl<'a> DocExt for DocBuilder<'a, Arena<'a>> {
+    #[verifier::external_body]
+    fn repeat_n(self, n: usize) -> (r: Self) ensures r@ == repeat_doc(self@, n as nat) { unimplemented!() }
+}
